@@ -7,6 +7,9 @@ From TS Require Import Model.Reconcile Model.Collect Model.TopsortAlgo Model.Top
 From TS Require Proofs.FrontItems Proofs.C07 Proofs.C07Back.
 From TS Require Proofs.GoAcronyms Proofs.C07Topsort Proofs.C07Front Proofs.C07TypeScript Proofs.C07Kotlin Proofs.C07Scala Proofs.C07Swift
                 Proofs.C07Python Proofs.C07Go Proofs.C07GoAscii Proofs.C07Pipeline.
+From TS Require Model.Writer.
+From TS Require Import Spec.C07MultiSpec.
+From TS Require Proofs.C07Multi.
 From TS Require Props.C07.
 
 Goal forall t : ty, is_panic (parse_ty t) = false.
@@ -303,3 +306,158 @@ Goal match topsort Proofs.C07Topsort.w_shadow_items with
   end.
 Proof. exact Props.C07.C07_topsort_nonvacuous. Qed.
 Print Assumptions Props.C07.C07_topsort_nonvacuous.
+Goal forall (uc : unicode) (cfg : ts_config) (st0 : ts_state) (imports : scoped) (pd : parsed),
+    panics_only (fun s => pd_wf pd = false /\ (s = "typescript.rs:137"%string \/ s = "typescript.rs:276"%string))
+                (ts_generate_multi uc cfg st0 imports pd).
+Proof. exact Props.C07.C07_multi_ts_generate_panics_only. Qed.
+Print Assumptions Props.C07.C07_multi_ts_generate_panics_only.
+Goal forall (uc : unicode) (cfg : ts_config) (st0 : ts_state) (imports : scoped) (pd : parsed),
+    pd_wf pd = true -> no_panic (ts_generate_multi uc cfg st0 imports pd).
+Proof. exact Props.C07.C07_multi_ts_generate_never_panics. Qed.
+Print Assumptions Props.C07.C07_multi_ts_generate_never_panics.
+Goal forall (uc : unicode) (cfg : kt_config) (crate_name : str) (imports : scoped) (pd : parsed),
+    no_panic (kt_generate_multi uc cfg crate_name imports pd).
+Proof. exact Props.C07.C07_multi_kt_generate_panics_only. Qed.
+Print Assumptions Props.C07.C07_multi_kt_generate_panics_only.
+Goal forall (uc : unicode) (cfg : sw_config) (st0 : sw_state) (pd : parsed), no_panic (sw_generate_multi uc cfg st0 pd).
+Proof. exact Props.C07.C07_multi_sw_generate_panics_only. Qed.
+Print Assumptions Props.C07.C07_multi_sw_generate_panics_only.
+Goal forall (uc : unicode) (cfg : sc_config) (st : unit) (crate_name : str) (imports : scoped) (pd : parsed),
+    no_panic (sc_multi_gen uc cfg st crate_name imports pd).
+Proof. exact Props.C07.C07_multi_sc_generate_panics_only. Qed.
+Print Assumptions Props.C07.C07_multi_sc_generate_panics_only.
+Goal forall (uc : unicode) (cfg : py_config) (st0 : py_state) (pd : parsed),
+    panics_only (fun s => pd_wf pd = false /\ s = "python.rs:368"%string) (py_generate_multi uc cfg st0 pd).
+Proof. exact Props.C07.C07_multi_py_generate_panics_only. Qed.
+Print Assumptions Props.C07.C07_multi_py_generate_panics_only.
+Goal forall (uc : unicode) (cfg : py_config) (st0 : py_state) (pd : parsed),
+    pd_wf pd = true -> no_panic (py_generate_multi uc cfg st0 pd).
+Proof. exact Props.C07.C07_multi_py_generate_never_panics. Qed.
+Print Assumptions Props.C07.C07_multi_py_generate_never_panics.
+Goal forall (uc : unicode) (cfg : go_config) (st0 : go_state) (pd : parsed), unicode_ok uc ->
+    panics_only (fun s => (s = "go.rs:594"%string /\ go_uppercase_acronyms cfg <> nil /\
+                           go_input_ascii (go_type_mappings cfg) pd = false) \/
+                          (s = "go.rs:301"%string /\ pd_wf pd = false))
+                (go_generate_multi uc cfg st0 pd).
+Proof. exact Props.C07.C07_multi_go_generate_panics_only. Qed.
+Print Assumptions Props.C07.C07_multi_go_generate_panics_only.
+Goal forall (uc : unicode) (cfg : go_config) (st0 : go_state) (pd : parsed),
+    panics_only (fun s => (s = "go.rs:594"%string /\ go_uppercase_acronyms cfg <> nil) \/
+                          (s = "go.rs:301"%string /\ pd_wf pd = false))
+                (go_generate_multi uc cfg st0 pd).
+Proof. exact Props.C07.C07_multi_go_generate_panics_only_any_tables. Qed.
+Print Assumptions Props.C07.C07_multi_go_generate_panics_only_any_tables.
+Goal forall (uc : unicode) (cfg : go_config) (st0 : go_state) (pd : parsed), unicode_ok uc ->
+    go_input_ascii (go_type_mappings cfg) pd = true -> pd_wf pd = true -> no_panic (go_generate_multi uc cfg st0 pd).
+Proof. exact Props.C07.C07_multi_go_generate_never_panics_ascii. Qed.
+Print Assumptions Props.C07.C07_multi_go_generate_never_panics_ascii.
+Goal forall uc : unicode,
+    (forall cfg st cn im pd, panics_only (fun s => pd_wf pd = false /\ (s = "typescript.rs:137"%string \/ s = "typescript.rs:276"%string))
+                                         (ts_multi_gen uc cfg st cn im pd)) /\
+    (forall cfg st cn im pd, no_panic (kt_multi_gen uc cfg st cn im pd)) /\
+    (forall cfg st cn im pd, no_panic (sc_multi_gen uc cfg st cn im pd)) /\
+    (forall cfg st cn im pd, no_panic (sw_multi_gen uc cfg st cn im pd)) /\
+    (forall cfg st cn im pd, panics_only (fun s => pd_wf pd = false /\ s = "python.rs:368"%string) (py_multi_gen uc cfg st cn im pd)) /\
+    (forall cfg st cn im pd, unicode_ok uc ->
+       panics_only (fun s => (s = "go.rs:594"%string /\ go_uppercase_acronyms cfg <> nil /\
+                              go_input_ascii (go_type_mappings cfg) pd = false) \/
+                             (s = "go.rs:301"%string /\ pd_wf pd = false)) (go_multi_gen uc cfg st cn im pd)).
+Proof. exact Props.C07.C07_multi_generators_panics_only. Qed.
+Print Assumptions Props.C07.C07_multi_generators_panics_only.
+Goal forall (uc : unicode) (tstr : str -> option ty) (T : list str) (own : str) (ign : list str)
+         (ho_file : list imported -> list imported) (f : file) (pd : parsed),
+    parse_file_multi uc tstr T own ign ho_file f = Ok (Some pd) -> pd_wf pd = true.
+Proof. exact Props.C07.C07_multi_front_end_delivers_shape. Qed.
+Print Assumptions Props.C07.C07_multi_front_end_delivers_shape.
+Goal (forall (pd : parsed) (im : list imported), pd_wf (with_imports pd im) = pd_wf pd) /\
+  (forall arrivals : list (str * parsed),
+     List.Forall (fun a => pd_wf (snd a) = true) arrivals -> List.Forall (fun c => pd_wf (snd c) = true) (collect arrivals)) /\
+  (forall (ho_crate : list imported -> list imported) (cs : crates),
+     List.Forall (fun c => pd_wf (snd c) = true) cs -> List.Forall (fun c => pd_wf (snd c) = true) (order_imports ho_crate cs)) /\
+  (forall cs : crates,
+     List.Forall (fun c => pd_wf (snd c) = true) cs -> List.Forall (fun c => pd_wf (snd c) = true) (reconcile_aliases cs)) /\
+  (forall (uc : unicode) (T ign : list str) (ho_file ho_crate : list imported -> list imported) (ws : list ws_entry) (cs : crates),
+     multi_file_crates uc T ign ho_file ho_crate ws = Ok cs -> List.Forall (fun c => pd_wf (snd c) = true) cs).
+Proof. exact Props.C07.C07_multi_reconcile_never_panics. Qed.
+Print Assumptions Props.C07.C07_multi_reconcile_never_panics.
+Goal forall (St : Type) (gen : St -> str -> scoped -> parsed -> outcome (str * St)) (P : string -> Prop) (plan : list out_plan),
+    (forall p, List.In p plan -> forall st, panics_only P (gen st (op_crate p) (op_imports p) (op_data p))) ->
+    forall st, panics_only P (snd (generate_crates gen st plan)).
+Proof. exact Props.C07.C07_multi_generate_crates_panics_only. Qed.
+Print Assumptions Props.C07.C07_multi_generate_crates_panics_only.
+Goal forall (uc : unicode) (T ign : list str) (ho_file ho_crate : list imported -> list imported)
+         (hc : crate_types -> crate_types) (l : lang) (ws : list ws_entry),
+    (forall c st, no_panic (multi_file_status (ts_multi_gen uc c) st uc T ign ho_file ho_crate hc l ws)) /\
+    (forall c st, no_panic (multi_file_status (kt_multi_gen uc c) st uc T ign ho_file ho_crate hc l ws)) /\
+    (forall c st, no_panic (multi_file_status (sc_multi_gen uc c) st uc T ign ho_file ho_crate hc l ws)) /\
+    (forall c st, no_panic (multi_file_status (sw_multi_gen uc c) st uc T ign ho_file ho_crate hc l ws)) /\
+    (forall c st, no_panic (multi_file_status (py_multi_gen uc c) st uc T ign ho_file ho_crate hc l ws)) /\
+    (forall c st, unicode_ok uc ->
+       panics_only (fun s => s = "go.rs:594"%string /\ go_uppercase_acronyms c <> nil /\
+                             go_multi_run_ascii uc T ign ho_file ho_crate (go_type_mappings c) ws = false)
+                   (multi_file_status (go_multi_gen uc c) st uc T ign ho_file ho_crate hc l ws)).
+Proof. exact Props.C07.C07_multi_workspace_pipeline_never_panics_partial. Qed.
+Print Assumptions Props.C07.C07_multi_workspace_pipeline_never_panics_partial.
+Goal forall (uc : unicode) (T ign : list str) (ho_file ho_crate : list imported -> list imported)
+         (hc : crate_types -> crate_types) (l : lang) (c : go_config) (st : go_state) (ws : list ws_entry), unicode_ok uc ->
+    go_uppercase_acronyms c = nil \/ go_multi_run_ascii uc T ign ho_file ho_crate (go_type_mappings c) ws = true ->
+    no_panic (multi_file_status (go_multi_gen uc c) st uc T ign ho_file ho_crate hc l ws).
+Proof. exact Props.C07.C07_multi_go_pipeline_never_panics. Qed.
+Print Assumptions Props.C07.C07_multi_go_pipeline_never_panics.
+Goal forall (St : Type) (gen : St -> str -> scoped -> parsed -> outcome (str * St)) (st0 : St) (uc : unicode) (T ign : list str)
+         (ho_file ho_crate : list imported -> list imported) (hc : crate_types -> crate_types) (l : lang) (ws : list ws_entry),
+    no_panic (multi_file_run gen st0 uc T ign ho_file ho_crate hc l ws).
+Proof. exact Props.C07.C07_multi_file_run_returns. Qed.
+Print Assumptions Props.C07.C07_multi_file_run_returns.
+Goal (match multi_file_crates uc_exec nil nil Proofs.C07Multi.idl Proofs.C07Multi.idl Proofs.C07Multi.ws_three with
+   | Ok cs => List.map fst cs = cons (lit "alpha") (cons (lit "app") (cons (lit "beta") nil)) /\
+              List.forallb (fun c => pd_wf (snd c)) cs = true /\
+              first_parse_error cs = None /\
+              List.map (fun c => List.length (items_of (snd c))) cs = cons 3%nat (cons 2%nat (cons 1%nat nil))
+   | _ => False
+   end) /\
+  Proofs.C07Multi.m_plan_imports TypeScript Proofs.C07Multi.ws_three =
+    cons (lit "alpha", nil)
+   (cons (lit "app", cons (lit "alpha", lit "Item") (cons (lit "alpha", lit "Kind") (cons (lit "alpha", lit "Shape") (cons (lit "beta", lit "Holder") nil))))
+   (cons (lit "beta", cons (lit "alpha", lit "Item") nil) nil)) /\
+  Proofs.C07Multi.m_files (ts_multi_gen uc_exec Proofs.C07Pipeline.w_ts_cfg) nil TypeScript Proofs.C07Multi.ws_three =
+    (cons (lit "alpha.ts") (cons (lit "app.ts") (cons (lit "beta.ts") nil)), true) /\
+  Proofs.C07Multi.m_files (kt_multi_gen uc_exec Proofs.C07Back.w_kt_cfg) tt Kotlin Proofs.C07Multi.ws_three =
+    (cons (lit "alpha.kt") (cons (lit "app.kt") (cons (lit "beta.kt") nil)), true) /\
+  Proofs.C07Multi.m_files (sc_multi_gen uc_exec (Proofs.C07Back.w_sc_cfg (lit "p"))) tt Scala Proofs.C07Multi.ws_three =
+    (cons (lit "alpha.scala") (cons (lit "app.scala") (cons (lit "beta.scala") nil)), true) /\
+  Proofs.C07Multi.m_files (sw_multi_gen uc_exec Proofs.C07Back.w_sw_cfg) false Swift Proofs.C07Multi.ws_three =
+    (cons (lit "Alpha.swift") (cons (lit "App.swift") (cons (lit "Beta.swift") nil)), true) /\
+  Proofs.C07Multi.m_files (py_multi_gen uc_exec Proofs.C07Pipeline.w_py_cfg) py_empty_state Python Proofs.C07Multi.ws_three =
+    (cons (lit "alpha.py") (cons (lit "app.py") (cons (lit "beta.py") nil)), true) /\
+  Proofs.C07Multi.m_files (go_multi_gen uc_exec (Proofs.C07Multi.m_go_cfg (cons (lit "id") (cons (lit "a" ++ cons 233%N nil) nil)))) nil Go
+                          Proofs.C07Multi.ws_three =
+    (cons (lit "alpha.go") (cons (lit "app.go") (cons (lit "beta.go") nil)), true) /\
+  go_multi_run_ascii uc_exec nil nil Proofs.C07Multi.idl Proofs.C07Multi.idl nil Proofs.C07Multi.ws_three = true.
+Proof. exact Props.C07.C07_multi_workspace_pipeline_nonvacuous. Qed.
+Print Assumptions Props.C07.C07_multi_workspace_pipeline_nonvacuous.
+Goal Proofs.C07Multi.m_status (ts_multi_gen uc_exec Proofs.C07Pipeline.w_ts_cfg) nil TypeScript Proofs.C07Multi.ws_parse_error =
+    Err (EUnsupportedType (cons (lit "Vec") nil)) /\
+  Proofs.C07Multi.m_files (ts_multi_gen uc_exec Proofs.C07Pipeline.w_ts_cfg) nil TypeScript Proofs.C07Multi.ws_parse_error = (nil, false).
+Proof. exact Props.C07.C07_multi_parse_error_is_diagnostic. Qed.
+Print Assumptions Props.C07.C07_multi_parse_error_is_diagnostic.
+Goal Proofs.C07Multi.m_status (kt_multi_gen uc_exec Proofs.C07Back.w_kt_cfg) tt Kotlin Proofs.C07Multi.ws_const = Err (EConstUnsupported (lit "X")) /\
+  match multi_file_run (kt_multi_gen uc_exec Proofs.C07Back.w_kt_cfg) tt uc_exec nil nil Proofs.C07Multi.idl Proofs.C07Multi.idl
+                       Proofs.C07Multi.idl Kotlin Proofs.C07Multi.ws_const with
+  | Ok (cons (f1, Writer.Generated (cons _ _)) (cons (f2, Writer.GenFailed) nil), Err _) => f1 = lit "alpha.kt" /\ f2 = lit "app.kt"
+  | _ => False
+  end.
+Proof. exact Props.C07.C07_multi_generation_error_is_diagnostic. Qed.
+Print Assumptions Props.C07.C07_multi_generation_error_is_diagnostic.
+Goal Proofs.C07Multi.m_status (go_multi_gen uc_exec (Proofs.C07Multi.m_go_cfg (cons (lit "a" ++ cons 233%N nil) nil))) nil Go Proofs.C07Multi.ws_594 =
+    Panic "go.rs:594" /\
+  go_multi_run_ascii uc_exec nil nil Proofs.C07Multi.idl Proofs.C07Multi.idl nil Proofs.C07Multi.ws_594 = false /\
+  match multi_file_run (go_multi_gen uc_exec (Proofs.C07Multi.m_go_cfg (cons (lit "a" ++ cons 233%N nil) nil))) nil uc_exec nil nil
+                       Proofs.C07Multi.idl Proofs.C07Multi.idl Proofs.C07Multi.idl Go Proofs.C07Multi.ws_594 with
+  | Ok (files, Panic _) => List.map fst files = cons (lit "alpha.go") (cons (lit "app.go") (cons (lit "beta.go") (cons (lit "gamma.go") nil)))
+  | _ => False
+  end /\
+  Proofs.C07Multi.m_files (go_multi_gen uc_exec (Proofs.C07Multi.m_go_cfg nil)) nil Go Proofs.C07Multi.ws_594 =
+    (cons (lit "alpha.go") (cons (lit "app.go") (cons (lit "beta.go") (cons (lit "gamma.go") nil))), true).
+Proof. exact Props.C07.C07_multi_go_594_refuted. Qed.
+Print Assumptions Props.C07.C07_multi_go_594_refuted.
